@@ -6,8 +6,10 @@ import (
 	"io"
 	"net"
 	"runtime"
+	"strings"
 	"sync"
 	"time"
+	"verif/harness/ktext"
 
 	"github.com/vapourismo/knx-go/knx"
 	"github.com/vapourismo/knx-go/knx/cemi"
@@ -29,6 +31,7 @@ type liveGateway struct {
 	dreqs  int
 	stop   chan struct{}
 	closed bool
+	acked  chan uint8 // sequence numbers of the acknowledgements the client sent (when set)
 }
 
 func newLiveGateway(tcp bool) (*liveGateway, string) {
@@ -122,6 +125,13 @@ func (g *liveGateway) handle(frame []byte) {
 		g.mu.Lock()
 		g.dreqs++
 		g.mu.Unlock()
+	case *knxnet.TunnelRes:
+		if g.acked != nil && s.Status == 0 {
+			select {
+			case g.acked <- s.SeqNumber:
+			default:
+			}
+		}
 	}
 }
 
@@ -411,5 +421,96 @@ func (r *run) stalledPeerProbe(stall time.Duration) (join func()) {
 			r.violation(x.kind, fmt.Sprintf("TCP peer does not read for %v while the client sends 30000-octet frames, then reads everything", stall), x.detail)
 		}
 		r.classes["stalled-peer-probe"]++
+	}
+}
+
+// c05live: the receive side of C05 over real sockets, all three tunnel layers: the gateway sends 2..8
+// telegrams, each with its own content, one after the other (on UDP each only after the previous one was
+// acknowledged) while the application is busy elsewhere; the application then reads them.  What was
+// acknowledged is delivered once, in order and WITH THE CONTENT IT HAD WHEN IT WAS ACKNOWLEDGED - the
+// sockets read every datagram into the same buffer, a telegram that still points into it changes
+// when the next one arrives.
+func (r *run) c05live(budget int) {
+	for i := 0; i < budget; i++ {
+		tcp := r.g.R.Intn(3) == 0
+		layer, kind, lname := knxnet.TunnelLayerData, 2, "data"
+		switch r.g.R.Intn(3) {
+		case 1:
+			layer, kind, lname = knxnet.TunnelLayerBusmon, 6, "busmon"
+		case 2:
+			layer, kind, lname = knxnet.TunnelLayerRaw, 5, "raw"
+		}
+		k := 2 + r.g.R.Intn(7)
+		op := fmt.Sprintf("live-receive tcp=%v layer=%s telegrams=%d", tcp, lname, k)
+		inflight(op)
+		gw, addr := newLiveGateway(tcp)
+		gw.acked = make(chan uint8, 64)
+		tun, err := knx.NewTunnel(addr, layer, knx.TunnelConfig{UseTCP: tcp,
+			ResendInterval: 50 * time.Millisecond, ResponseTimeout: 500 * time.Millisecond, HeartbeatInterval: time.Hour})
+		if err != nil {
+			r.violation("connect-failed", op, err.Error())
+			gw.shutdown()
+			continue
+		}
+		var sent []string
+		lost := false
+		for q := 0; q < k && !lost; q++ {
+			var m cemi.Message
+			for {
+				m = r.g.Cemi(kind)
+				if len(knxnet.AllocAndPack(&knxnet.TunnelReq{Payload: m})) <= 900 {
+					break
+				}
+			}
+			sent = append(sent, ktext.Join(ktext.Cemi(m)))
+			gw.write(&knxnet.TunnelReq{Channel: 9, SeqNumber: uint8(q), Payload: m})
+			if tcp {
+				continue
+			}
+			select {
+			case a := <-gw.acked:
+				if a != uint8(q) {
+					r.violation("live-acknowledgement-number", op, fmt.Sprintf("telegram %d was acknowledged with number %d", q, a))
+				}
+			case <-time.After(time.Second):
+				// the kernel may drop a loopback datagram under load; without the acknowledgement nothing
+				// is owed for this telegram or the ones behind it
+				lost = true
+				sent = sent[:len(sent)-1]
+			}
+		}
+		if tcp {
+			time.Sleep(5 * time.Millisecond)
+		}
+		var got []string
+	read:
+		for len(got) < len(sent) {
+			select {
+			case m, ok := <-tun.Inbound():
+				if !ok {
+					break read
+				}
+				got = append(got, ktext.Join(ktext.Cemi(m)))
+			case <-time.After(time.Second):
+				break read
+			}
+		}
+		r.emit(op, fmt.Sprintf("sent=%d delivered=%d", len(sent), len(got)))
+		if strings.Join(got, " ; ") != strings.Join(sent, " ; ") {
+			at := 0
+			for at < len(got) && at < len(sent) && got[at] == sent[at] {
+				at++
+			}
+			w, g := "-", "-"
+			if at < len(sent) {
+				w = sent[at]
+			}
+			if at < len(got) {
+				g = got[at]
+			}
+			r.violation("live-delivery-differs", op, fmt.Sprintf("the gateway sent %d telegrams (all acknowledged), the application received %d; first difference at %d: sent %s, received %s", len(sent), len(got), at, w, g))
+		}
+		tun.Close()
+		gw.shutdown()
 	}
 }
